@@ -45,7 +45,8 @@ class C06(CheckBase):
         return {'quick': {'runs': 220, 'wall': 85}, 'thorough': {'runs': 12000, 'wall': 1800}}[tier]
 
     def generate(self, rng, tier):
-        cfg = worldb.draw_config(rng, periodic=None, latency=rng.choice([0.0, 0.001]))
+        cfg = worldb.draw_config(rng, periodic=None, latency=rng.choice([0.0, 0.001]),
+                                 contextstates_in_getmdib=rng.choice([None, True, False, False]))
         g = W.Gen(rng, cfg['mdib'], validate=True)
         n = rng.randint(6, 30 if tier == 'thorough' else 14)
         ops = []
